@@ -139,6 +139,9 @@ class NodeSliver(BaseSliver):
     def get_service_endpoint(self) -> str:
         return self.service_endpoint
 
+    def get_attached_components_info(self):
+        return self.attached_components_info
+
     def set_site(self, site: str):
         self.site = site
 
